@@ -298,6 +298,10 @@ func (in *Interp) ackermann(name string, args []*Term) *Term {
 // ackermannNamed: uninterpreted function whose call table (arguments and result of every call)
 // is exported with the model, so that a native replay can interpolate the same function.
 func (in *Interp) ackermannNamed(name string, args []*Term, mono bool) *Term {
+	return in.ackermannNamedX(name, args, mono, true)
+}
+
+func (in *Interp) ackermannNamedX(name string, args []*Term, mono bool, export bool) *Term {
 	ts := in.ts
 	key := "ufn:" + name
 	for _, c := range in.mathCalls[key] {
@@ -314,6 +318,9 @@ func (in *Interp) ackermannNamed(name string, args []*Term, mono bool) *Term {
 	k := len(in.mathCalls[key])
 	y := ts.Var(fmt.Sprintf("uf:%s:%d:res", name, k), in.floatSort())
 	for i, a := range args {
+		if !export {
+			break
+		}
 		av := ts.Var(fmt.Sprintf("uf:%s:%d:arg%d", name, k, i), a.sort)
 		in.axiom(ts.Eq(av, a))
 	}
